@@ -103,3 +103,52 @@ func Verif_C03_delivery_schedules() {
 	verifAssert("session-ended-idle", to == idleState && conn.closed)
 	verifCover("schedules")
 }
+
+// the delivery contract holds for every session of a peer, not only the first one on an FSM object
+func Verif_C03_second_session_on_reused_fsm() {
+	verifNote("real peer: first outbound session Established, one UPDATE (symbolic body 0..16 bytes) delivered, ended by FIN; the same outbound FSM re-dials (idle-hold timer fired); second session Established: UPDATE (symbolic body) delivered, the handler returns a Notification (symbolic code/subcode, 0..3 data bytes) for it, a further UPDATE already on the wire is not delivered; NOTIFICATION verbatim, OnClose once per session, nothing wedges (peer.stop returns)")
+	e := newPenv(false)
+	e.dial.outcomes = []dialOutcome{dialOK, dialOK, dialPendingThenFail}
+	b1, b2, b3 := verifBuf("u1", 0, 16), verifBuf("u2", 0, 16), verifBuf("u3", 0, 16)
+	nd := verifBuf("ndata", 0, 3)
+	e.pl.handlerNotifAt = 1
+	e.pl.handlerNotif = &Notification{Code: verifU8("ncode"), Subcode: verifU8("nsub"), Data: nd}
+	e.p.start()
+	c1 := e.bring(out, stEstablished)
+	c1.send(updateMessageType, b1)
+	verifQuiesce()
+	c1.remoteClose(1)
+	verifQuiesce()
+	verifAssert("first-session-one-update-and-closed", len(e.pl.updates) == 1 && e.pl.nEstab == 1 && e.pl.nClose == 1 && c1.closed)
+	f := e.p.fsms[out]
+	if f == nil || !verifFireTimer(f.idleHoldTimer) {
+		verifAssert("outbound-fsm-waits-for-idle-hold", false)
+		return
+	}
+	c2 := e.bring(out, stEstablished)
+	verifAssert("second-session-on-same-fsm", c2 != c1 && e.p.fsms[out] == f && e.pl.nEstab == 2)
+	if c2 == c1 {
+		return
+	}
+	c2.writes = nil
+	c2.send(updateMessageType, b2)
+	c2.send(updateMessageType, b3)
+	verifQuiesce()
+	verifAssert("second-session-update-delivered-once-then-stop", len(e.pl.updates) == 2)
+	if len(e.pl.updates) == 2 {
+		verifAssertBytesEq("first-session-update-bytes", e.pl.updates[0], b1)
+		verifAssertBytesEq("second-session-update-bytes", e.pl.updates[1], b2)
+	}
+	verifAssert("handler-notification-single-write", len(c2.writes) == 1)
+	if len(c2.writes) == 1 {
+		w := c2.writes[0]
+		verifAssert("handler-notification-verbatim", isNotification(w, e.pl.handlerNotif.Code, e.pl.handlerNotif.Subcode, len(nd)))
+		verifAssume(len(w) >= 21)
+		verifAssertBytesEq("handler-notification-data", w[21:], nd)
+	}
+	verifAssert("second-session-onclose-exactly-once", e.pl.nClose == 2 && !e.pl.badOrder && !e.pl.overlap)
+	verifAssert("second-connection-closed", c2.closed)
+	verifCover("second-session-handler-notification")
+	e.p.stop()
+	verifAssert("stop-returns", e.pl.nClose == 2)
+}
